@@ -221,20 +221,27 @@ Theorem C14_no_use_after_free :
 Proof. exact main_no_use_after_free. Qed.
 Print Assumptions C14_no_use_after_free.
 
-(** non-vacuity on the executable instance (set-up included; opaque conditions 481 710 885 true =
-    default start distribution, Fokker-Planck term on, HDF5 output): SIGINT at the 6th hook point of
-    the set-up: the program reaches the end of main (kind 0), 0 steps, "Aborted.", status 0; without
-    a signal 8 steps and "Finished."; all three objects are freed *)
+(** non-vacuity on the executable instance (set-up included; [norm_env main_setup]: the opaque
+    conditions on the first path that leaves the set-up normally - default start distribution,
+    Fokker-Planck term on, HDF5 output): SIGINT at the 6th hook point of the set-up: the program
+    reaches the end of main (kind 0), 0 steps, "Aborted.", status 0; without a signal 8 steps and
+    "Finished."; all three objects are freed *)
 Example C14_setup_interrupt_example :
   let c := mkcfg 8 2 1 0 true true false in
-  let '(kd, o) := model_run_full c 5 false [481; 710; 885] [] in
-  let '(kd', o') := model_run_full c (-1) false [481; 710; 885] [] in
+  let '(kd, o) := model_run_full c 5 false (norm_env main_setup) [] in
+  let '(kd', o') := model_run_full c (-1) false (norm_env main_setup) [] in
   (kd, o_k o, o_status o, last (o_log o) MStatus, kd', o_k o', last (o_log o') MStatus) =
   (0, 0, Some 0, MAborted, 0, 8, MFinished) /\
-  frees (p_post main_prog) = [OWakeField; OWm; OFpm].
+  (forallb (fun x => existsb (obj_eqb x) (frees (p_post main_prog))) [OWakeField; OWm; OFpm] &&
+   (length (frees (p_post main_prog)) =? 3)%nat) = true.
 Proof. vm_compute. split; reflexivity. Qed.
-(** ... and the HDF5 error path (the constructor throws: opaque statement 891): the flag is set by the handler *)
+(** ... and the HDF5 error path (the first opaque statement of the `try` whose handler sets the
+    flag throws): the flag is set by the handler *)
 Example C14_setup_error_path_example :
-  let '(kd, o) := model_run_full (mkcfg 8 2 1 0 false true false) (-1) false [481; 710; 885] [891] in
-  (kd, o_k o, o_abort o, last (o_log o) MStatus) = (0, 0, true, MAborted).
+  match abort_try_opq main_setup with
+  | Some n =>
+      let '(kd, o) := model_run_full (mkcfg 8 2 1 0 false true false) (-1) false (norm_env main_setup) [n] in
+      (kd, o_k o, o_abort o, last (o_log o) MStatus) = (0, 0, true, MAborted)
+  | None => False
+  end.
 Proof. vm_compute. reflexivity. Qed.
